@@ -329,14 +329,14 @@ func (s *seqState) next() (more bool, alive bool) {
 				nextFam = "before_v4"
 			}
 		}
-		sig := "field_mismatch|"
-		for i, b := range bad {
-			if i > 0 {
-				sig += "+"
-			}
-			sig += b
+		sig := "field_mismatch|multiple"
+		if len(bad) == 1 {
+			sig = "field_mismatch|" + bad[0]
 		}
-		c.Violatef(sig+"|"+nextFam, "item #%d drained as %s, inserted as %s (refusal seen before: %v); %s", s.read-1, got, want, s.refused, s.tail())
+		if len(bad) > 1 || bad[0] != "size" {
+			nextFam = "any"
+		}
+		c.Violatef(sig+"|"+nextFam, "item #%d drained as %s, inserted as %s (differing: %v; refusal seen before: %v); %s", s.read-1, got, want, bad, s.refused, s.tail())
 		return true, false
 	}
 	return true, true
